@@ -8,12 +8,16 @@
       `set` (refinement, coq/PropSim.v: C02_set_helper_refines_abstract_set), hence a coherent world stays coherent under every
       assignment that returns normally and every immediately bound property equals its expression recomputed from scratch over the
       current values (C02_assignment_keeps_coherence, C02_bound_equals_expression_recomputed).
+   3. coherence is established and kept by every history of a GROWING network (coq/PropGrow.v): new properties, plain observers,
+      fresh properties bound with immediate evaluation to unary/binary operator expressions over existing properties (bound ones
+      included, the same input any number of times), assignments to inputs - in every world such a history reaches, every bound
+      property equals its expression recomputed from scratch (C02_growing_network_consistent).
    PARTIAL: ternary operators, observers that write, rebinding / reset / moves / destruction between assignments are covered by
    PropCheck.check_c02 on every world reached by the generated histories and by correspondence, not by the refinement. *)
 From Coq Require Import List ZArith.
 Import ListNotations.
 From KDB Require Import PropAbs PropAbsProofs.
-From KDB Require Util PropDefs PropLink PropCheck PropSim.
+From KDB Require Util PropDefs PropLink PropCheck PropSim PropGrow.
 
 (* Inv s [] says: every node of every binding is clean, every cached result is the denotation of its subtree, every
    bound property equals the denotation of its expression, every leaf is subscribed to its input. *)
@@ -69,3 +73,32 @@ Theorem C02_bound_equals_expression_recomputed :
     PropCheck.den_node fn (PropDefs.values w) (PropDefs.b_root x) = Some z -> PropDefs.pr_value pr = z.
 Proof. exact PropSim.coherent_bound_equals_expression. Qed.
 Print Assumptions C02_bound_equals_expression_recomputed.
+
+(* every history of a growing network (the operations allowed by grow_op, each returning normally) keeps SC and COH ... *)
+Theorem C02_growing_network_coherent :
+  forall fn rtl fuel ops w, PropSim.SC w -> PropSim.COH fn w -> PropGrow.grow_run_ok fn rtl fuel w ops ->
+    PropSim.SC (fold_left (PropDefs.step fn rtl fuel) ops w) /\ PropSim.COH fn (fold_left (PropDefs.step fn rtl fuel) ops w).
+Proof. exact PropGrow.grow_coherent. Qed.
+Print Assumptions C02_growing_network_coherent.
+
+(* ... hence, from the empty world: every immediately bound property equals its expression over the current values *)
+Theorem C02_growing_network_consistent :
+  forall fn rtl fuel ops q x pr z,
+    PropGrow.grow_run_ok fn rtl fuel PropDefs.world0 ops ->
+    PropSim.imm_of (PropDefs.run fn rtl fuel ops) q = Some x -> Util.lookup (PropDefs.w_props (PropDefs.run fn rtl fuel ops)) q = Some pr ->
+    PropCheck.den_node fn (PropDefs.values (PropDefs.run fn rtl fuel ops)) (PropDefs.b_root x) = Some z -> PropDefs.pr_value pr = z.
+Proof. exact PropGrow.grow_reachable_consistent. Qed.
+Print Assumptions C02_growing_network_consistent.
+
+(* non-vacuity: a chain with a diamond (input 0 reaches property 3 directly and through property 2) and an observer: the history is
+   a growing-network history, and after the assignment property 3 holds (5 + 2) + 5 *)
+Example C02_growing_example :
+  let fn := fun (f : nat) (l : list Z) => Some (fold_right Z.add 0%Z l) in
+  let ops := [PropDefs.PNew 0 1%Z; PropDefs.PNew 1 2%Z;
+              PropDefs.PBind 2 (PropDefs.EOp2 0 (PropDefs.EProp 0) (PropDefs.EProp 1)) PropDefs.MImmediate;
+              PropDefs.PBind 3 (PropDefs.EOp2 1 (PropDefs.EProp 2) (PropDefs.EProp 0)) PropDefs.MImmediate;
+              PropDefs.PObserve 3 PropDefs.KChanged 7 0 None; PropDefs.PSet 0 5%Z PropDefs.WSet; PropDefs.PGet 3] in
+  PropGrow.grow_run_ok fn true 8 PropDefs.world0 ops /\
+  hd_error (PropDefs.w_trace (PropDefs.run fn true 8 ops)) = Some (PropDefs.EvDone None) /\
+  nth_error (PropDefs.w_trace (PropDefs.run fn true 8 ops)) 1 = Some (PropDefs.EvVal (Some 12%Z)).
+Proof. vm_compute. repeat split; reflexivity. Qed.
